@@ -1,3 +1,302 @@
-import KeepVerif.Model.C04
+import KeepVerif.Proofs.C04Sqrt
+import KeepVerif.Proofs.C04Field
+/-!
+# C04 — BN254 point encoding round-trips and decoding always terminates
+
+Property theorems over `Model/C04.lean` (the functions the driver runs); constants come from
+`Gen/C04.lean` (regenerated from the source on every run).  Library lemmas are in
+`Proofs/C04Sqrt.lean` (`hexRoot_order_16`, `sqrt_search_periodic`, `sqrt_diverges_iff`,
+`sqrt_bound_complete`, `sqrtGfP2_none_iff_old_diverges`, `sqrtGfP2_sound`, `sqrtExp_eq`) and
+`Proofs/C04Field.lean` (`modSqrt_sq`, `modSqrt_complete`).
+
+* termination: the model functions are total; what is proved is that the bound of the fixed loop
+  loses nothing (`sqrt_bound_complete`) and that the old loop diverged exactly where the fixed code
+  returns the error (`sqrtGfP2_none_iff_old_diverges`, `decompressG2_diverges_witness`);
+* soundness of decoding for all inputs: `holdsD1_model`, `holdsD2_model`;
+* round trip: `g1_roundtrip` (all finite points, `P` prime as hypothesis), `identity_roundtrip`;
+  G2 round trip for finite points is **not proved** (it needs F_p² to be a field and the
+  completeness of the 16-step search for squares; also no argument excludes a subgroup point with a
+  zero y-component, for which the negation `P − 0` would leave the field range) — it is checked by
+  the correspondence harness and the monitor on every run only;
+* hashing: `hash_on_curve`, `hashLoop_mono` (termination is fuel-relative).
+-/
 namespace KeepVerif.C04
+
+
+/-! ## The defects of the code before the fix, as theorems -/
+
+/-- **Divergence witness** (F3): for the 64-byte input `00…00 ‖ 00…03` (x = 3) the value
+    `x³ + twistB` is not a square, so the unbounded loop of the old `sqrtGfP2` never terminates
+    (no fuel suffices), while the fixed code returns an error. -/
+theorem decompressG2_diverges_witness :
+    (∀ fuel, sqrtLoop fuel (Fp2.add (Fp2.pow ⟨3, 0⟩ 3) twistB)
+        (Fp2.pow (Fp2.add (Fp2.pow ⟨3, 0⟩ 3) twistB) sqrtExp) = none) ∧
+    (match decompressG2 0 3 with | .error .nosqrt => true | _ => false) = true := by
+  have h : sqrtGfP2 (Fp2.add (Fp2.pow ⟨3, 0⟩ 3) twistB) = none := by decide +kernel
+  exact ⟨(sqrtGfP2_none_iff_old_diverges _).mp h, by decide +kernel⟩
+
+/-- the all-zero input also made the old loop diverge (`twistB` is not a square). -/
+theorem decompressG2_zero_diverged_old :
+    ∀ fuel, sqrtLoop fuel (Fp2.add (Fp2.pow ⟨0, 0⟩ 3) twistB)
+        (Fp2.pow (Fp2.add (Fp2.pow ⟨0, 0⟩ 3) twistB) sqrtExp) = none :=
+  (sqrtGfP2_none_iff_old_diverges _).mp (by decide +kernel)
+
+/-- **Identity** (F3b): `Compress` of the point at infinity evaluated `yParity 0`, which indexed an
+    empty byte slice (panic) before the fix. -/
+theorem compress_identity_panicked_old : yParityOld 0 = none := rfl
+
+/-- after the fix the point at infinity round-trips, in G1 and in G2. -/
+theorem identity_roundtrip :
+    (match decompressG1 (compressG1 0 0) with | .ok (0, 0) => true | _ => false) = true ∧
+    (match decompressG2 (compressG2 Fp2.zero Fp2.zero).1 (compressG2 Fp2.zero Fp2.zero).2 with
+      | .ok (⟨0, 0⟩, ⟨0, 0⟩) => true | _ => false) = true := by
+  decide +kernel
+
+/-- 3 is not a square modulo `P`: no curve point has `x = 0`, so the all-zero encoding is free
+    to stand for the point at infinity. -/
+theorem yFromX_zero : yFromX 0 = none := by decide +kernel
+
+
+/-! ## Decoding of arbitrary bytes: the monitor accepts every model output -/
+
+def obsOf1 : Except Err (Nat × Nat) → Obs
+  | .ok (x, y) => .point1 x y
+  | .error e => .err e.toString
+
+def obsOf2 : Except Err (Fp2 × Fp2) → Obs
+  | .ok (x, y) => .point2 x y
+  | .error e => .err e.toString
+
+/-- **Decoding is total and sound (G1)**: for every 32-byte input the fixed `DecompressToG1`
+    terminates with an error or with a point that is on the curve, has reduced coordinates and
+    compresses back to the input — i.e. the monitor accepts every model output. -/
+theorem holdsD1_model (m : Nat) (hm : m < 2 ^ 256) : holdsD1 m (obsOf1 (decompressG1 m)) = true := by
+  unfold decompressG1
+  by_cases h0 : m = 0
+  · subst h0
+    decide +kernel
+  · rw [if_neg h0]
+    simp only
+    cases hy : yFromX (m % two255) with
+    | none => rfl
+    | some r =>
+      simp only
+      have hr : r < P := modSqrt_lt _ _ hy
+      generalize hy' : (if m / two255 % 2 ≠ yParity r then P - r else r) = y'
+      unfold g1FromInts
+      cases hf : firstErr [m % two255, y'] with
+      | some e => rfl
+      | none =>
+        simp only
+        have hb := firstErr_none _ hf
+        have hx : m % two255 < P := hb _ (by simp)
+        have hyl : y' < P := hb _ (by simp)
+        by_cases hz : m % two255 = 0 ∧ y' = 0
+        · exfalso
+          rw [hz.1, yFromX_zero] at hy
+          cases hy
+        · rw [if_neg hz]
+          by_cases hc : onCurveG1 (m % two255) y' = true
+          · rw [if_pos hc]
+            simp only [obsOf1, holdsD1]
+            have hpar : y' % 2 = m / two255 % 2 := by
+              rw [← hy']
+              exact parity_select _ _ (Nat.mod_lt _ (by omega)) hr (by have := hy'; unfold yParity at this; rw [this]; exact hyl)
+            have hcomp : compressG1 (m % two255) y' = m := by
+              unfold compressG1 yParity
+              rw [hpar]
+              exact orTop_restore m hm hx
+            simp [hx, hyl, hc, hcomp]
+          · rw [if_neg hc]; rfl
+
+
+theorem sqrtLoop_reduced (x : Fp2) : ∀ (f : Nat) (y r : Fp2), Reduced y → sqrtLoop f x y = some r →
+    Reduced r := by
+  intro f
+  induction f with
+  | zero => intro y r _ h; simp [sqrtLoop] at h
+  | succ f ih =>
+    intro y r hy h
+    rw [sqrtLoop.eq_2] at h
+    split at h
+    · injection h with h; subst h; exact hy
+    · exact ih _ _ (mul_reduced _ _) h
+
+theorem sqrt_twistB_none : sqrtGfP2 (Fp2.add (Fp2.pow ⟨0, 0⟩ 3) twistB) = none := by decide +kernel
+
+/-- **Decoding is total and sound (G2)**: for every 64-byte input the fixed `DecompressToG2`
+    terminates with an error or with a point of G2 (on the twist, killed by the group order,
+    reduced coordinates) that compresses back to the input. -/
+theorem holdsD2_model (hi lo : Nat) (hhi : hi < 2 ^ 256) :
+    holdsD2 hi lo (obsOf2 (decompressG2 hi lo)) = true := by
+  unfold decompressG2
+  by_cases h0 : hi = 0 ∧ lo = 0
+  · obtain ⟨rfl, rfl⟩ := h0
+    decide +kernel
+  · rw [if_neg h0]
+    simp only
+    cases hs : sqrtGfP2 (Fp2.add (Fp2.pow ⟨lo, hi % two255⟩ 3) twistB) with
+    | none => rfl
+    | some r =>
+      simp only
+      have hr : Reduced r := sqrtLoop_reduced _ _ _ _ (pow_reduced _ _) hs
+      generalize hy' : (if hi / two255 % 2 ≠ yParity r.y then (⟨P - r.x, P - r.y⟩ : Fp2) else r) = y'
+      unfold g2FromInts
+      cases hf : firstErr [(⟨lo, hi % two255⟩ : Fp2).y, (⟨lo, hi % two255⟩ : Fp2).x, y'.y, y'.x] with
+      | some e => rfl
+      | none =>
+        simp only
+        have hb := firstErr_none _ hf
+        have hxy : hi % two255 < P := hb _ (by simp)
+        have hxx : lo < P := hb _ (by simp)
+        have hyy : y'.y < P := hb _ (by simp)
+        have hyx : y'.x < P := hb _ (by simp)
+        by_cases hz : ((⟨lo, hi % two255⟩ : Fp2).isZero && y'.isZero) = true
+        · exfalso
+          simp only [Fp2.isZero, Bool.and_eq_true, beq_iff_eq] at hz
+          obtain ⟨⟨hlo, hhi0⟩, _⟩ := hz
+          rw [hlo, hhi0, sqrt_twistB_none] at hs
+          cases hs
+        · rw [if_neg hz]
+          by_cases hc : inG2 ⟨lo, hi % two255⟩ y' = true
+          · rw [if_pos hc]
+            simp only [obsOf2, holdsD2]
+            have hyy' : y'.y = if hi / two255 % 2 ≠ r.y % 2 then P - r.y else r.y := by
+              rw [← hy']; unfold yParity; split <;> rfl
+            have hpar : y'.y % 2 = hi / two255 % 2 := by
+              rw [hyy']
+              exact parity_select _ _ (Nat.mod_lt _ (by omega)) hr.2 (by rw [← hyy']; exact hyy)
+            have hcomp : compressG2 ⟨lo, hi % two255⟩ y' = (hi, lo) := by
+              unfold compressG2 yParity
+              simp only
+              rw [hpar, orTop_restore hi hhi hxy]
+            simp [hxx, hxy, hyy, hyx, hc, hcomp]
+          · rw [if_neg hc]; rfl
+
+
+/-! ## Hash to G1 -/
+
+/-- **Hash to G1 lands on the curve**: whenever the try-and-increment loop returns, the result
+    satisfies `y² = x³ + 3 (mod P)` with `y` reduced, `x` is the hash value plus the number of
+    increments, and every smaller increment had no square root. (Termination is fuel-relative:
+    that some `x' ≥ x` has `x'³+3` a residue is a number-theoretic fact that is not proved; the
+    driver uses fuel 512 and reports `FUEL` otherwise.) -/
+theorem hashLoop_spec : ∀ (f x k : Nat) (r : Nat × Nat × Nat), hashLoop f x k = some r →
+    onCurveG1 r.1 r.2.1 = true ∧ r.2.1 < P ∧ ∃ j, j < f ∧ r.1 = x + j ∧ r.2.2 = k + j ∧
+      ∀ i < j, yFromX (x + i) = none := by
+  intro f
+  induction f with
+  | zero => intro x k r h; simp [hashLoop] at h
+  | succ f ih =>
+    intro x k r h
+    rw [hashLoop.eq_2] at h
+    cases hy : yFromX x with
+    | some y =>
+      rw [hy] at h
+      have h := Option.some.inj h; subst h
+      refine ⟨?_, modSqrt_lt _ _ hy, 0, by omega, rfl, rfl, fun i hi => absurd hi (by omega)⟩
+      unfold onCurveG1
+      rw [beq_iff_eq]
+      exact modSqrt_sq _ _ hy
+    | none =>
+      rw [hy] at h
+      obtain ⟨h1, h2, j, hj, h3, h4, h5⟩ := ih _ _ _ h
+      refine ⟨h1, h2, j + 1, by omega, by omega, by omega, ?_⟩
+      intro i hi
+      cases i with
+      | zero => simpa using hy
+      | succ i =>
+        have := h5 i (by omega)
+        rwa [show x + 1 + i = x + (i + 1) by omega] at this
+
+theorem hash_on_curve (h fuel x y k : Nat) (hh : hashToG1 h fuel = some (x, y, k)) :
+    onCurveG1 x y = true ∧ y < P ∧ x = h % P + k ∧ k < fuel := by
+  obtain ⟨h1, h2, j, hj, h3, h4, _⟩ := hashLoop_spec _ _ _ _ hh
+  simp only at h1 h2 h3 h4
+  refine ⟨h1, h2, by omega, by omega⟩
+
+/-- more fuel never changes an answer (the result is a function of the hash alone). -/
+theorem hashLoop_mono : ∀ (f g x k : Nat) (r : Nat × Nat × Nat), hashLoop f x k = some r →
+    hashLoop (f + g) x k = some r := by
+  intro f
+  induction f with
+  | zero => intro g x k r h; simp [hashLoop] at h
+  | succ f ih =>
+    intro g x k r h
+    have : f + 1 + g = (f + g) + 1 := by omega
+    rw [this, hashLoop.eq_2]
+    rw [hashLoop.eq_2] at h
+    cases hy : yFromX x with
+    | some y => rw [hy] at h ⊢; exact h
+    | none => rw [hy] at h ⊢; exact ih _ _ _ _ h
+
+
+/-! ## Round trip -/
+
+
+
+theorem orTop_split (x b : Nat) (hx : x < two255) (hb : b < 2) :
+    orTop x b % two255 = x ∧ orTop x b / two255 % 2 = b ∧ (orTop x b = 0 → x = 0) := by
+  unfold orTop
+  unfold two255 at *
+  have h0 : x / 2 ^ 255 = 0 := Nat.div_eq_of_lt hx
+  rw [h0]
+  split
+  · rename_i h
+    refine ⟨?_, ?_, ?_⟩ <;> omega
+  · rename_i h
+    refine ⟨?_, ?_, ?_⟩ <;> omega
+
+theorem g1FromInts_ok (x y : Nat) (hx : x < P) (hy : y < P) (hc : onCurveG1 x y = true) :
+    g1FromInts x y = .ok (x, y) := by
+  have h00 : ¬ (x = 0 ∧ y = 0) := by
+    rintro ⟨rfl, rfl⟩
+    revert hc; decide
+  unfold g1FromInts
+  have hf : firstErr [x, y] = none := by
+    simp [firstErr, coordCheck, hx, hy]
+  rw [hf]
+  simp only
+  rw [if_neg h00, if_pos hc]
+
+/-- **G1 round trip**: for every affine point of the curve with reduced coordinates (that is every
+    finite point `bn256` can marshal — `k•G` for all `k ≢ 0`), decompressing the compressed
+    point gives back the point.  `P` prime is the hypothesis A-field. -/
+theorem g1_roundtrip [hp : Fact (Nat.Prime P)] (x y : Nat) (hx : x < P) (hy : y < P)
+    (hc : onCurveG1 x y = true) : decompressG1 (compressG1 x y) = .ok (x, y) := by
+  have hcurve : (y * y) % P = (x * x * x + 3) % P := by simpa [onCurveG1] using hc
+  obtain ⟨r, hr, hrlt, hror⟩ := modSqrt_complete (x * x * x + 3) y hy hcurve
+  have hx255 : x < two255 := lt_trans hx p_lt_two255
+  obtain ⟨hm1, hm2, hm3⟩ := orTop_split x (y % 2) hx255 (Nat.mod_lt _ (by omega))
+  have hxne : x ≠ 0 := by
+    rintro rfl
+    have : yFromX 0 = some r := hr
+    rw [yFromX_zero] at this; cases this
+  have hyx : yFromX x = some r := hr
+  unfold decompressG1 compressG1 yParity
+  rw [if_neg (fun h => hxne (hm3 h))]
+  simp only
+  rw [hm1, hm2, hyx]
+  simp only
+  have hy' : (if y % 2 ≠ r % 2 then P - r else r) = y := by
+    have hp := p_odd
+    rcases hror with rfl | hsum
+    · simp
+    · by_cases hpar : y % 2 ≠ r % 2
+      · rw [if_pos hpar]; omega
+      · exfalso; omega
+  rw [hy']
+  exact g1FromInts_ok x y hx hy hc
+
+/-- the identity and every finite point: the monitor's round-trip predicate accepts the model. -/
+theorem holdsRt1_model [hp : Fact (Nat.Prime P)] (x y : Nat)
+    (h : (x = 0 ∧ y = 0) ∨ (x < P ∧ y < P ∧ onCurveG1 x y = true)) :
+    holdsRt1 x y (match decompressG1 (compressG1 x y) with
+      | .ok (x', y') => .point1 x' y' | .error e => .err e.toString) = true := by
+  rcases h with ⟨rfl, rfl⟩ | ⟨hx, hy, hc⟩
+  · decide +kernel
+  · rw [g1_roundtrip x y hx hy hc]
+    simp [holdsRt1]
+
+
 end KeepVerif.C04
